@@ -972,6 +972,12 @@ func (fi *FuncInfo) RangeHeader(rangeExpr string, ord int) *ssa.BasicBlock {
 // header's true edge back to the header) crosses an edge satisfying pass. A
 // path that leaves the function (return/panic) is fine.
 func (fi *FuncInfo) LoopBodyMustCross(header *ssa.BasicBlock, pass func(Atom) bool) GateResult {
+	return fi.LoopBodyMustCrossOrPass(header, pass, nil)
+}
+
+// LoopBodyMustCrossOrPass: every path through the loop body crosses a passing
+// edge or executes an instruction satisfying hit.
+func (fi *FuncInfo) LoopBodyMustCrossOrPass(header *ssa.BasicBlock, pass func(Atom) bool, hit func(ssa.Instruction) bool) GateResult {
 	type st struct {
 		b    *ssa.BasicBlock
 		prev *st
@@ -992,6 +998,17 @@ func (fi *FuncInfo) LoopBodyMustCross(header *ssa.BasicBlock, pass func(Atom) bo
 				}
 			}
 			return GateResult{OK: false, Witness: strings.Join(parts, " ; "), Gates: gates}
+		}
+		if hit != nil {
+			blocked := false
+			for _, in := range s.b.Instrs {
+				if hit(in) {
+					blocked = true
+				}
+			}
+			if blocked {
+				continue
+			}
 		}
 		for i, succ := range s.b.Succs {
 			if !FeasibleSucc(s.b, i) {
@@ -1221,4 +1238,121 @@ func (fi *FuncInfo) ValueFresh(v ssa.Value, at ssa.Instruction) (bool, string) {
 		}
 	}
 	return true, ""
+}
+
+// LoopBodyMustPass decides: every path through the loop body (header's true
+// edge back to the header) executes an instruction satisfying hit. Leaving the
+// function is fine.
+func (fi *FuncInfo) LoopBodyMustPass(header *ssa.BasicBlock, hit func(ssa.Instruction) bool) GateResult {
+	type st struct {
+		b    *ssa.BasicBlock
+		prev *st
+		via  string
+	}
+	body := header.Succs[0]
+	seen := map[*ssa.BasicBlock]bool{body: true}
+	q := []*st{{b: body}}
+	for len(q) > 0 {
+		s := q[0]
+		q = q[1:]
+		if s.b == header {
+			var parts []string
+			for x := s; x != nil; x = x.prev {
+				if x.via != "" {
+					parts = append([]string{x.via}, parts...)
+				}
+			}
+			return GateResult{OK: false, Witness: strings.Join(parts, " ; ")}
+		}
+		blocked := false
+		for _, in := range s.b.Instrs {
+			if hit(in) {
+				blocked = true
+				break
+			}
+		}
+		if blocked {
+			continue
+		}
+		for i, succ := range s.b.Succs {
+			if !FeasibleSucc(s.b, i) {
+				continue
+			}
+			via := ""
+			if a, ok := fi.EdgeAtom(Edge{s.b, i}); ok {
+				via = "[" + a.String() + "]"
+			}
+			if seen[succ] && succ != header {
+				continue
+			}
+			seen[succ] = true
+			q = append(q, &st{b: succ, prev: s, via: via})
+		}
+	}
+	return GateResult{OK: true}
+}
+
+// InLoop reports whether block b belongs to the natural loop of header.
+func InLoop(header, b *ssa.BasicBlock) bool {
+	if !header.Dominates(b) {
+		return false
+	}
+	// b reaches header
+	seen := map[*ssa.BasicBlock]bool{b: true}
+	stack := []*ssa.BasicBlock{b}
+	for len(stack) > 0 {
+		x := stack[len(stack)-1]
+		stack = stack[:len(stack)-1]
+		for _, s := range x.Succs {
+			if s == header {
+				return true
+			}
+			if !seen[s] && header.Dominates(s) {
+				seen[s] = true
+				stack = append(stack, s)
+			}
+		}
+	}
+	return false
+}
+
+// MustCrossInLoop: every path from the loop header to target (inside the loop)
+// crosses an edge satisfying pass — i.e. within the current iteration.
+func (fi *FuncInfo) MustCrossInLoop(header *ssa.BasicBlock, target ssa.Instruction, pass func(Atom) bool) GateResult {
+	type st struct {
+		b    *ssa.BasicBlock
+		prev *st
+		via  string
+	}
+	seen := map[*ssa.BasicBlock]bool{header: true}
+	q := []*st{{b: header}}
+	tb := target.Block()
+	for len(q) > 0 {
+		s := q[0]
+		q = q[1:]
+		if s.b == tb {
+			var parts []string
+			for x := s; x != nil; x = x.prev {
+				if x.via != "" {
+					parts = append([]string{x.via}, parts...)
+				}
+			}
+			return GateResult{OK: false, Witness: strings.Join(parts, " ; ")}
+		}
+		for i, succ := range s.b.Succs {
+			if !FeasibleSucc(s.b, i) || seen[succ] {
+				continue
+			}
+			via := ""
+			if a, ok := fi.EdgeAtom(Edge{s.b, i}); ok {
+				via = "[" + a.String() + "]"
+				if pass(a) {
+					continue
+				}
+			}
+			seen[succ] = true
+			q = append(q, &st{b: succ, prev: s, via: via})
+		}
+	}
+	return GateResult{OK: true}
 }
